@@ -641,7 +641,8 @@ class Gen:
                 return E(b, "call", f="fn3", xs=[(None, self.expr(env, INT, depth - 1))])
             if ng and r.random() < 0.4:
                 return E(b, "err", a=self.expr(env, t[2], depth - 1))
-            if self.ret == t or ng:
+            # Ok(e) takes the enclosing function's error type (or an undetermined one outside a Result function)
+            if (self.ret[0] == "res" and self.ret[2] == t[2]) or (self.ret[0] != "res" and ng):
                 return E(b, "ok", a=self.expr(env, t[1], depth - 1))
             return E(b, "call", f="fn2" if t == RES_S else "fn3", xs=[(None, self.expr(env, INT, depth - 1))])
         raise ValueError(t)
